@@ -22,6 +22,11 @@
 #include "config.h"
 
 #include <map>
+#include <netinet/tcp.h>
+#include <poll.h>
+#include <sys/ioctl.h>
+#include <linux/sockios.h>
+#include <time.h>
 #include <random>
 
 #include "common/msepeer.h"
@@ -119,7 +124,90 @@ static torrent::Handshake* find_hs(uint16_t port, bool retrying) {
   return nullptr;
 }
 
-static unsigned g_connected = 0;   // ConnectionList::signal_connected of the harness torrents
+static unsigned g_connected = 0;
+static uint64_t g_tx0 = 0;         // WirePeer::tx_total when the current connection was made
+static uint16_t g_hs_port = 0;     // remote port of the library-side socket of the current case
+
+// The library-side socket that talks to the current scripted peer (handshake or connection), or -1.
+static int lib_fd(Session& S) {
+  auto& v = hs_container(torrent::manager->handshake_manager());
+  for (auto itr = std::begin(v); itr != std::end(v); ++itr) {
+    auto* h = &**itr;
+    const sockaddr* sa = h->socket_address();
+    if (sa != nullptr && sa->sa_family == AF_INET && ntohs(((const sockaddr_in*)sa)->sin_port) == g_hs_port &&
+        ((const sockaddr_in*)sa)->sin_addr.s_addr == g_peer_ip && h->is_open()) return h->file_descriptor();
+  }
+  for (Torrent* T : {T1, T2, T4}) {
+    torrent::PeerConnectionBase* pcb = S.find_connection(T, g_hs_port);
+    if (pcb != nullptr && pcb->is_open()) return pcb->file_descriptor();
+  }
+  return -1;
+}
+
+// first 136 bytes of the kernel's struct tcp_info (linux/tcp.h; stable ABI; glibc's netinet/tcp.h copy is older)
+struct tcp_info_head { uint8_t pad[120]; uint64_t bytes_acked; uint64_t bytes_received; };
+static bool tcp_received(int fd, uint64_t& received) {
+  tcp_info_head ti{};
+  socklen_t n = sizeof ti;
+  if (fd == -1 || getsockopt(fd, IPPROTO_TCP, TCP_INFO, &ti, &n) != 0 || n < sizeof ti) return false;
+  received = ti.bytes_received;
+  return true;
+}
+
+// pump() decides "nothing moves" from a few idle rounds, which on a loaded machine can be before the
+// kernel has delivered a loopback segment (softirq deferred). qpump keeps pumping until both TCP
+// directions have delivered everything that was sent (byte counters of the two sockets agree), so the
+// observed state does not depend on wall-clock timing. Bounded by a (generous) number of rounds.
+// After the peer closed its end: step until the library's socket has seen the FIN (its TCP state left
+// ESTABLISHED) and the library had a few rounds to react, or the socket is gone.
+static torrent::Handshake* find_hs(uint16_t port, bool retrying);
+static void wait_close(Session& S, bool retrying) {
+  int after = 0;
+  for (int round = 0; round < 20000 && after < 3; round++) {
+    pump(S, {});
+    S.step();
+    int lfd = -1;
+    if (auto* h = find_hs(g_hs_port, retrying)) lfd = h->is_open() ? h->file_descriptor() : -1;
+    else for (Torrent* T : {T1, T2, T4})
+      if (auto* pcb = S.find_connection(T, g_hs_port)) { if (pcb->is_open()) lfd = pcb->file_descriptor(); }
+    if (lfd == -1) return;
+    struct tcp_info ti{};
+    socklen_t n = sizeof ti;
+    if (getsockopt(lfd, IPPROTO_TCP, TCP_INFO, &ti, &n) != 0 || ti.tcpi_state != TCP_ESTABLISHED) { after++; continue; }
+    struct timespec ts{0, 1000000};
+    nanosleep(&ts, nullptr);
+  }
+}
+
+// the library has an outgoing handshake for the current peer but the listener has not seen the
+// connection yet: the SYN / accept queue is the kernel's business, wait for it
+static void wait_accept(Session& S, WirePeer& w) {
+  for (int i = 0; i < 300 && w.fd == -1 && lib_fd(S) != -1; i++) {
+    struct pollfd pf{w.lfd, POLLIN, 0};
+    ::poll(&pf, 1, 100);
+    pump(S, {&w});
+  }
+}
+
+static void qpump(Session& S, WirePeer& w) {
+  for (int round = 0; round < 20000; round++) {
+    ltv::pump(S, {&w});
+    bool inflight = !w.tx_pending.empty();
+    uint64_t lr = 0;
+    int lfd = lib_fd(S), outq = 0;
+    if (w.fd != -1 && lfd != -1) {
+      if (tcp_received(lfd, lr) && lr < w.tx_total - g_tx0) inflight = true;            // peer -> library not delivered yet
+      if (ioctl(lfd, SIOCOUTQ, &outq) == 0 && outq > 0) inflight = true;                // library -> peer not delivered (the peer ACKs at once: TCP_QUICKACK)
+    }
+    if (!inflight) {
+      if (ltv::pump(S, {&w}) == 0) return;
+      continue;
+    }
+    struct timespec ts{0, 1000000};
+    nanosleep(&ts, nullptr);
+  }
+}
+   // ConnectionList::signal_connected of the harness torrents
 
 // One peer-side connection (one attempt).
 struct Conn {
@@ -338,8 +426,7 @@ static std::string run_script(Session& S, Conn& c, const Script& sc, uint16_t hs
   };
   if (sc.close_now) {
     { int fd = c.w.fd; c.w.fd = -1; if (fd != -1) ::close(fd); }
-    pump(S, {});
-    S.step();
+    { int lfd = c.w.lfd; c.w.lfd = -1; wait_close(S, retrying); c.w.lfd = lfd; }
     observe();
     if (result.empty()) result = "open";
     return trace;
@@ -352,7 +439,7 @@ static std::string run_script(Session& S, Conn& c, const Script& sc, uint16_t hs
     for (auto& sg : segments(bytes, ph.seg)) {
       if (c.w.fd == -1) break;
       c.w.send_bytes(sg);
-      pump(S, {&c.w});
+      qpump(S, c.w);
       c.parse_rx();
       if (result.empty()) observe();
       else if (result != "ok") break;
@@ -364,8 +451,7 @@ static std::string run_script(Session& S, Conn& c, const Script& sc, uint16_t hs
       if (fd != -1) ::close(fd);
       int lfd = c.w.lfd;
       c.w.lfd = -1;            // do not accept a retry inside this pump
-      pump(S, {});
-      S.step();
+      wait_close(S, retrying);
       c.w.lfd = lfd;
       if (result.empty()) observe();
       break;
@@ -392,7 +478,7 @@ static std::string lib_check(Session& S, Conn& c, Torrent* T, uint16_t port, con
   if (result != "ok" || !chk) return "lib=-";
   if (lib_sees_trail(S, T, port)) return "lib=ok";
   c.w.send_bytes(c.in_mode('m', std::string(4, '\0')));
-  pump(S, {&c.w});
+  qpump(S, c.w);
   return lib_sees_trail(S, T, port) ? "lib=late" : "lib=bad";
 }
 
@@ -412,11 +498,13 @@ static std::string run_case(Session& S, const std::string& line) {
     WirePeer w;
     if (!w.connect_to(S.listen_port(), ip.c_str())) return "ERR:connect";
     uint16_t port = w.local_port();
-    pump(S, {&w});
+    g_hs_port = port;
+    qpump(S, w);
+    g_tx0 = 0;
     Conn c(S, w, true, g_case_no);
     std::string result;
     std::string tr = run_script(S, c, sc, port, T1, result);
-    pump(S, {&w});
+    qpump(S, w);
     outp = "a1:" + tr + " " + (result == "ok" ? c.summary(T1->info_hash) : std::string("w=- m=-")) + " att=1 " + lib_check(S, c, T1, port, result, chk);
     w.close_all();
     pump(S, {});
@@ -426,13 +514,20 @@ static std::string run_case(Session& S, const std::string& line) {
     WirePeer w;
     uint16_t port = w.listen_on(ip.c_str());
     if (port == 0) return "ERR:listen";
+    g_hs_port = port;
+    g_tx0 = 0;
     S.connect_out(T1, ip, port);
-    pump(S, {&w});
+    qpump(S, w);
+    // the library's connect() reaches the listener through the kernel: wait for it (poll returns as soon
+    // as the connection is there; the bound only matters for a tree that really does not connect)
+    wait_accept(S, w);
+    qpump(S, w);
     int attempts = 0;
     std::string result, summ = "w=- m=-", libs = "lib=-";
     while (w.fd != -1 && attempts < 3) {
       attempts++;
       bool plainhs = w.rx.compare(0, 20, std::string("\x13" "BitTorrent protocol", 20)) == 0;
+      g_tx0 = w.tx_total;
       Conn c(S, w, false, g_case_no * 4 + attempts);
       c.mse = !plainhs;
       result.clear();
@@ -443,7 +538,7 @@ static std::string run_case(Session& S, const std::string& line) {
         std::string tr2 = run_script(S, c, cl, port, T1, result, attempts > 1);
         tr += (tr.empty() || tr2.empty() ? "" : ",") + tr2;
       }
-      if (result == "ok" || result == "open") pump(S, {&w});
+      if (result == "ok" || result == "open") qpump(S, w);
       if (result == "ok") { summ = c.summary(T1->info_hash); libs = lib_check(S, c, T1, port, result, chk); }
       outp += (outp.empty() ? "" : " ") + std::string("a") + std::to_string(attempts) + (plainhs ? "p:" : "m:") + tr;
       if (result == "ok" || result == "open") break;
@@ -451,7 +546,9 @@ static std::string run_case(Session& S, const std::string& line) {
       w.rx.clear();
       w.eof = false;
       w.tx_pending.clear();
-      pump(S, {&w});
+      qpump(S, w);
+      wait_accept(S, w);     // a retry the library has dialled
+      qpump(S, w);
     }
     if (attempts == 0) outp = "a0:noconnect";
     outp += " " + summ + " att=" + std::to_string(attempts) + " " + libs;
@@ -516,13 +613,13 @@ int main(int argc, char** argv) {
     torrent::log_add_group_output(torrent::LOG_CONNECTION_HANDSHAKE, "c06");
     torrent::log_add_group_output(torrent::LOG_PROTOCOL_NETWORK_ERRORS, "c06");
   }
-  // per-case watchdog: a case that does not finish within 30 s of wall time is reported as HANG
+  // per-case watchdog: a case that does not finish within 10 minutes of wall time is reported as HANG
   signal(SIGALRM, [](int) { const char m[] = "HANG\n"; (void)!write(1, m, sizeof m - 1); _exit(5); });
   std::string line;
   while (std::getline(std::cin, line)) {
     if (line.empty()) { std::cout << "BADCASE\n"; continue; }
     try {
-      alarm(30);
+      alarm(600);   // generous: only a truly stuck case is a hang (a byte-wise case takes seconds even under heavy load)
       std::string res = run_case(S, line);
       alarm(0);
       std::cout << res << "\n";
